@@ -102,6 +102,9 @@ func init() {
 					y.Neg(y)
 				}
 			}
+			if r.Intn(3) == 0 { // boundary family (num values are always announced at their true length)
+				x, y = g.divBoundary(r, signed, g.maxBits)
+			}
 			return &tcase{args: []*big.Int{x, y}, mode: r.Intn(2)}
 		}
 	}
@@ -677,7 +680,15 @@ func init() {
 			return okz(n, d)
 		}})
 	register(&opDef{name: "num.rat.round", model: "q.round", weight: 4,
-		gen: func(r *vh.Rng, g *genCtx) *tcase { c := genQ(r, g); c.args = c.args[:2]; return c },
+		gen: func(r *vh.Rng, g *genCtx) *tcase {
+			c := genQ(r, g)
+			c.args = c.args[:2]
+			if r.Intn(3) == 0 { // boundary family: floor/ceil hit 2^j, 2^j +- 1 from both sides
+				a, b := g.divBoundary(r, true, 512)
+				c.args = []*big.Int{a, new(big.Int).Abs(b)}
+			}
+			return c
+		},
 		impl: func(c *tcase) (string, string) {
 			x := mkQ(c.args[0], c.args[1])
 			n, d := canon(x)
